@@ -591,7 +591,16 @@ def runCmp {V} (E : Env V) (c : Option (CmpOp × V)) (bs : Batches V) : Batches 
   | some (op, v) => run E.num (accOps (comparisonFn E.num op v)) [] bs
   | none => bs
 
-/-- `Plan` + `planAggregators` followed by `Process` on the upstream batches -/
+/-- `LRAPlanner.Process` / `UnwrapAggPlanner.Process` admit exactly the function names `addValue` has a case for; any
+    other name (`stddev_over_time`, `stdvar_over_time`, `sum_over_time` without `| unwrap`, …) is answered NotSupported
+    before anything runs (it used to leave every bucket empty: an empty matrix) -/
+def Plan.accepted {V} (p : Plan V) : Bool :=
+  match p.agg with
+  | some (.range .other, _) => false
+  | some (.unwrap .other, _) => false
+  | _ => true
+
+/-- `Plan` + `planAggregators` followed by `Process` on the upstream batches (of a plan `Process` accepts) -/
 def runPlan {V} (E : Env V) (c : Ctx) (p : Plan V) (bs : Batches V) : Batches V :=
   let s := runStages E p.stages bs
   match p.agg with
